@@ -25,6 +25,7 @@ def build_registry(world=None) -> Registry:
     c_component_ctx.register3(reg)
     c_component_ctx.register4(reg)
     c_component_ctx.register5(reg)
+    c_component_ctx.register6(reg)
     c_runner.register(reg)
     c_runner.register_run(reg)
     c_runner.register_signals(reg)
